@@ -551,8 +551,10 @@ pub fn scenario_e(seed: u64) -> MadeE {
     let mut regs = Vec::new();
     // timeline: (time, kind, index)  kind 0 = selection call, 1 = register, 2 = table edit, 3 = query
     let mut ops: Vec<(u64, u8, usize)> = Vec::new();
-    if rng.chance(1, 2) {
-        ops.push((rng.below(200), 0, 0));
+    // selections made before anything is registered (several, so that "the last match wins" matters for
+    // the addresses a service with automatic addresses is given at registration)
+    for _ in 0..rng.usize(4) {
+        ops.push((rng.below(4500), 0, 0));
     }
     let n_svcs = 1 + rng.usize(3);
     for s in 0..n_svcs {
